@@ -58,6 +58,9 @@ def check_rendering(R, batch, fmt, lang, text, wit):
         R.violation(key('undecodable'), f'{fmt} output cannot be decoded: {e!r}', dict(wit, output=text[:1500]))
         return False
     R.count(f'decoded:{fmt}')
+    if fmt == 'jigg_xml':
+        for prob in codecs.decode_jigg(text)[1][:2]:
+            R.violation(key('offset'), f'jigg_xml: {prob}', dict(wit, output=text[:1500]))
     want_seq = [(si, ni) for si, trees in enumerate(batch, 1) for ni, _ in enumerate(trees, 1)]
     got_seq = [(r['sentence'], r.get('nbest')) for r in recs]
     if fmt in HAS_NBEST:
